@@ -76,24 +76,24 @@ CLAIMED = {
 ADDED = {
  'C01': "frame lengths around the buffer capacity with two callers; 9/17/33 calls outstanding at once released in four orders; a connection with one outstanding and one abandoned call across 16 382 / 16 383 / 16 400 further calls (66 000 thorough); connections starting at sequence numbers 126 / 16 382 / 2^21-2 / 2^32-2; the caller that continues right after an abandoned call; scheduling points after every lock release (d=1)",
  'C02': "a request that cannot be encoded among other calls (yielding, rejecting body codec); an asynchronous call on a pooled connection that was parked and closed by its server; the long-connection history; high sequence numbers; unlock points",
- 'C03': "the long-connection history ended by Conn.Close; a reset link reads as a timeout-style temporary net.Error; unlock points; thorough: environment conformance of the message pipe against real TCP/UNIX sockets (896 operation sequences)",
- 'C04': "JSON omitempty arguments decoded into recycled objects; 200 calls alternating between methods of equal name length, an unknown one and failing ones; a response lost on a connection that had been parked in the idle queue; high sequence numbers; unlock points",
- 'C05': "client direct I/O with client pipelining; bursts of 40/150/300 requests written before the server reads; 5/17/33/70 pipelining connections with one held handler; high sequence numbers; unlock points",
+ 'C03': "the long-connection history ended by Conn.Close; a reset link reads as a timeout-style temporary net.Error; unlock points; Transport.Close racing dialling / waiting callers; both tiers: the real-network matrix (408 configurations) incl. Server.Close with a call outstanding; thorough: environment conformance of the message pipe against real TCP/UNIX sockets (896 operation sequences)",
+ 'C04': "JSON omitempty arguments decoded into recycled objects; 200 calls alternating between methods of equal name length, an unknown one and failing ones; a response lost on a connection that had been parked in the idle queue; the smallest requests (a zero-byte frame, a frame with a sequence number only) at every position; high sequence numbers; unlock points",
+ 'C05': "client direct I/O with client pipelining; bursts of 40/150/300 requests written before the server reads; 5/17/33/70 pipelining connections with one held handler; 3..70 connections of which one does not read its responses; empty replies between ordinary ones under client pipelining; high sequence numbers; unlock points",
  'C06': "a server-side stream write that cannot be encoded followed by calls; library / I/O error texts (incl. the text of ErrShutdown) through a Transport with another call outstanding; the equal-name-length history; high sequence numbers; unlock points",
- 'C07': "sequences of four frames with complementary present fields, in every order, through one server codec and one client codec per encoder",
+ 'C07': "sequences of four frames with complementary present fields, in every order, through one server codec and one client codec per encoder; whole frames written by the real codecs with a body codec that marshals into the given buffer, method names of 0..1000 bytes",
  'C08': "a refused stream open followed by its data/close frame or a disconnect; the load-balancing client with dying targets and deep stream backlogs, judged for crashes only",
  'C09': "backlogs of 9..130 unread messages after k=0..9 consumed ones, on both sides, with empty messages; two readers on one stream; high sequence numbers; unlock points",
- 'C10': "two readers blocked on one stream for every way it ends; 20..300 unread messages on either side when the stream or connection is closed (sibling stream, handlers and threads); high sequence numbers; unlock points",
+ 'C10': "two readers blocked on one stream for every way it ends; 20..300 unread messages on either side when the stream or connection is closed (sibling stream, handlers and threads); Close after a server-side stream write failed to encode; high sequence numbers; unlock points",
  'C11': "the frame-size sweep with 1000-byte buffers (length != capacity of pooled buffers); one *Call reused for several RoundTrips",
- 'C12': "zero-valued replies/requests; 125..131-byte header fields; every encoder x codec on connections starting at sequence number 254 / 16 382 / 2^32-2; SetBufferSize at any time over the real framing; both tiers: 408 real-network configurations (tcp, unix, http, ws, inproc x TLS x encoders x codecs x poll x buffer sizes) in subprocesses, incl. a 100-request single-write burst on tcp/unix; thorough: instrumentation self-check (the repository's 81 tests on the instrumented build)",
+ 'C12': "zero-valued replies/requests; 125..131-byte header fields; every encoder x codec on connections starting at sequence number 254 / 16 382 / 2^32-2; SetBufferSize at any time over the real framing; Options that carry a name and a different constructor; two connections where a handler of one waits for a call on the other; both tiers: 408 real-network configurations (tcp, unix, http, ws, inproc x TLS x encoders x codecs x poll x buffer sizes) in subprocesses, incl. a 100-request single-write burst on tcp/unix; thorough: instrumentation self-check (the repository's 81 tests on the instrumented build)",
  'C13': "event sequences (L=3; L=4 thorough) from a state with MaxConnsPerHost+1 concurrent calls made and all connections retired, limits (4,3),(6,5),(5,2),(3,3), a second host with spare idle capacity, IdleConnTimeout 3 s / 20 s; the idle limit judged from outside (open connections after a period without use); map iteration order as an environment choice (f=1); unlock points",
- 'C14': "the many-idle event sequences with calls to both hosts (wrong-address oracle also for concurrent calls); map iteration order as an environment choice; unlock points",
- 'C15': "a refused NewStream on a pooled connection; the many-idle event sequences (busy connections survive housekeeping, unused ones are reclaimed, Close leaves nothing); map order; unlock points",
+ 'C14': "the many-idle event sequences with calls to both hosts (wrong-address oracle also for concurrent calls); map iteration order as an environment choice; unlock points; both tiers: on real tcp/unix/inproc a Transport call to a server that has gone away reports ErrDial",
+ 'C15': "a refused NewStream on a pooled connection; KeepAlive / IdleConnTimeout set to the largest duration; the many-idle event sequences (busy connections survive housekeeping, unused ones are reclaimed, Close leaves nothing); map order; unlock points",
  'C16': "map iteration order as an environment choice; unlock points",
  'C17': "2-3 concurrent round-robin callers with asymmetric call counts (2n calls, every target exactly twice); the stable live set after a die-and-recover swap; map iteration order of the target table as an environment choice",
  'C18': "Update with every pair of target lists that keeps a live target; 70 targets with one beyond the 64th going down and coming back; map order; unlock points",
  'C19': "Transport housekeeping (CloseIdleConnections, keep-alive, idle timeout) next to a call on the connection of an abandoned call; 5..130 abandoned unanswered calls on one connection; the long-connection history; high sequence numbers; unlock points",
- 'C20': "Transport many-idle event sequences; 20..300 unread stream messages when the connection closes; map order; unlock points",
+ 'C20': "Transport many-idle event sequences; 20..300 unread stream messages when the connection closes; a peer death reported by a read error other than EOF; a server that went away and came back while its pooled connection was unused; map order; unlock points",
 }
 props = [json.loads(l) for l in open(V + '/properties.jsonl')]
 checks, na = [], []
